@@ -47,6 +47,16 @@ theorem fresh_acquires_after_break (s : Sys) (i : Nat) (x : Nonce) (hheld : s.he
   simp [breakEvs, acquireEvs, Sys.run, Sys.step, hal, hidle, hnh, hheld, startOp, lstep, peekDir,
     Locker.done, ownerOf]
 
+/-- the hypotheses of the three recovery theorems are satisfiable (free / readable / corrupt lock, idle live locker) -/
+example :
+    let cfg : Nat → Cfg := fun _ => ⟨1, 1, false⟩
+    ((Sys.init cfg).held = none ∧ ((Sys.init cfg).lk 5).pc = .idle ∧ (Sys.init cfg).crashed 5 = false) ∧
+    ((Sys.init cfg (some (some (.ok ⟨9, 2⟩)))).held = some (some (.ok ⟨9, 2⟩)) ∧
+      ((Sys.init cfg (some (some (.ok ⟨9, 2⟩)))).lk 5).held = false) ∧
+    ((Sys.init cfg (some (some (.bad 3)))).held = some (some (.bad 3)) ∧
+      (((Sys.init cfg (some (some (.bad 3)))).run (breakCorruptEvs 5 ++ acquireEvs 5)).lk 5).last = .ok) := by
+  decide +kernel
+
 /-- **Recovery after any crash**: whatever happened before (any interleaving, crashes, faults, breaks), a live
 idle locker that does not hold the lock acquires it directly or after one explicit break. -/
 theorem recover_after_any_crash (cfg : Nat → Cfg) (h0 : Option Dir) (evs : List Ev) (i : Nat)
@@ -95,6 +105,16 @@ theorem failed_attempt_not_held_partial (cfg : Nat → Cfg) (h0 : Option Dir) (e
   · exact Or.inl h1
   · exact Or.inr (Or.inr h1)
   · exact Or.inr (Or.inl h1.1)
+
+/-- non-vacuity: the lock on disk carries locker 0's info right after its rename (second disjunct), and after
+its confirming peek (first disjunct); neither run involves a fault -/
+example :
+    let cfg : Nat → Cfg := fun _ => ⟨1, 1, false⟩
+    let s3 := (Sys.init cfg).run [.start 0 .attempt, .step 0, .step 0, .step 0]
+    let s4 := s3.run [.step 0]
+    ownerOf s3.held = some 0 ∧ (s3.lk 0).pc = .aConfirm ∧ (s3.lk 0).held = false ∧
+      ownerOf s4.held = some 0 ∧ (s4.lk 0).held = true ∧ s4.orphan 0 = false := by
+  decide +kernel
 
 /-- the `orphan` flag is raised only by a fault injected into a confirming peek -/
 theorem orphan_only_by_fault_at_confirm (s : Sys) (e : Ev) (i : Nat) (h : (s.step e).orphan i = true) :
@@ -154,5 +174,15 @@ theorem failed_attempt_solo (s : Sys) (i : Nat) (fk : FaultKind) (k : Nat) (hk :
       cases hp : peekDir (some d) <;>
         simp [Sys.run, Sys.step, hal, hidle, hnh, hh, hp, hsteal, startOp, lstep, lfault, Locker.done,
           dropPend]
+
+/-- non-vacuity of `failed_attempt_solo`: the rename of a contended attempt raises; the attempt cleans up its
+pending directory and fails with the other holder's lock untouched -/
+example :
+    let cfg : Nat → Cfg := fun _ => ⟨1, 1, false⟩
+    let s := (Sys.init cfg (some (some (.ok ⟨9, 2⟩))))
+    let evs := [Ev.start 0 .attempt] ++ List.replicate 2 (Ev.step 0) ++ [Ev.fault 0 .P] ++ List.replicate 4 (Ev.step 0)
+    (s.lk 0).pc = .idle ∧ (s.cfg 0).steal = false ∧ (s.run evs).held = s.held ∧
+      ((s.run evs).lk 0).last = .contention ∧ ((s.run evs).lk 0).pend = none ∧ ((s.run evs).lk 0).junk = [] := by
+  decide +kernel
 
 end BreezyVerif.C27
